@@ -202,9 +202,8 @@ func receiveFromTransport(ctx context.Context, c *channel, done chan<- struct{})
 				log.Printf("receiveFromTransport: %v", err)
 				// The channel cannot receive anymore (connection lost, undecodable or oversized input).
 				// Release the transport, otherwise the channel would still look established while it is deaf.
-				if c.transport.Connected() {
-					_ = c.transport.Close()
-				}
+				// (also when the end of the stream was reached: the connection is still to be released)
+				_ = c.transport.Close()
 			}
 			return
 		}
